@@ -92,21 +92,21 @@ func (s *genState) versOfKind(kind string, disk int) []int {
 }
 
 // profile: base weights per op kind for each property.
-var opKinds = []string{"ins", "del", "get", "size", "iter", "seek", "cur", "clone", "cursor", "fork", "persist", "reload", "restart", "diff", "difflinks", "probe", "newtree", "canon", "bulk", "rootcheck"}
+var opKinds = []string{"ins", "del", "get", "size", "iter", "seek", "cur", "clone", "cursor", "fork", "persist", "reload", "restart", "diff", "difflinks", "probe", "newtree", "canon", "bulk", "rootcheck", "rebf"}
 
 var profiles = map[string]map[string]int{
 	"C01": {"ins": 30, "del": 18, "get": 10, "size": 2, "iter": 5, "seek": 0, "cur": 0, "clone": 3, "fork": 3, "persist": 6, "reload": 4, "restart": 2, "diff": 1, "newtree": 1, "cursor": 1},
 	"C02": {"ins": 30, "del": 14, "get": 2, "clone": 8, "cursor": 4, "fork": 8, "persist": 8, "reload": 8, "restart": 1, "newtree": 1},
 	"C03": {"ins": 30, "del": 8, "persist": 14, "reload": 2, "fork": 2, "restart": 1, "bulk": 3, "newtree": 2},
-	"C04": {"ins": 30, "del": 20, "persist": 8, "canon": 8, "reload": 3, "fork": 1, "restart": 1},
+	"C04": {"ins": 30, "del": 20, "persist": 8, "canon": 8, "reload": 3, "fork": 1, "restart": 1, "rebf": 2},
 	"C05": {"ins": 30, "del": 12, "persist": 10, "reload": 10, "restart": 3, "get": 3, "iter": 2, "fork": 1, "newtree": 2},
 	"C06": {"ins": 30, "del": 14, "clone": 6, "fork": 4, "persist": 5, "reload": 3, "diff": 16, "newtree": 3, "restart": 1},
 	"C07": {"ins": 30, "del": 14, "persist": 10, "reload": 4, "fork": 3, "difflinks": 14, "newtree": 2, "restart": 1},
 	"C08": {"ins": 30, "del": 14, "persist": 12, "reload": 5, "fork": 3, "restart": 1, "clone": 1, "canon": 2},
-	"C09": {"ins": 30, "del": 22, "persist": 12, "reload": 3, "fork": 2, "restart": 1},
+	"C09": {"ins": 30, "del": 22, "persist": 12, "reload": 3, "fork": 2, "restart": 1, "rebf": 3},
 	"C10": {"ins": 30, "del": 12, "cur": 22, "seek": 12, "persist": 4, "reload": 3, "restart": 1, "fork": 1},
 	"C13": {"ins": 24, "del": 14, "persist": 14, "reload": 5, "fork": 2, "restart": 2, "newtree": 1, "bulk": 2},
-	"C14": {"ins": 30, "del": 10, "persist": 10, "reload": 3},
+	"C14": {"ins": 30, "del": 10, "persist": 10, "reload": 3, "rebf": 3},
 	"C15": {"ins": 20, "del": 8, "persist": 10, "fork": 3, "difflinks": 12, "bulk": 6, "newtree": 2, "reload": 2},
 	"C16": {"ins": 20, "del": 8, "persist": 8, "probe": 24, "bulk": 6, "reload": 1},
 }
@@ -669,6 +669,9 @@ func (s *genState) emit(kind, prop string) {
 			op.Key = g.Intn(s.cfg.U)
 		}
 		s.ops = append(s.ops, op)
+	case "rebf":
+		nb := []int{2, 3, 4, 5, 16}[g.Intn(5)]
+		s.ops = append(s.ops, Op{K: "rebf", T: ti, N: nb})
 	case "rootcheck":
 		roots := s.versOfKind("root", -1)
 		if len(roots) == 0 {
